@@ -4561,11 +4561,28 @@ class ParameterizedMetaclass(type):
                 raise
 
         else:
+            if isinstance(value,Parameter):
+                # Like a Parameter declared in the class body (or added
+                # with add_parameter), it has to learn its name
+                value._set_names(attribute_name)
+                missing = object()
+                previous = mcs.__dict__.get(attribute_name, missing)
             type.__setattr__(mcs,attribute_name,value)
 
             if isinstance(value,Parameter):
-                mcs.__param_inheritance(attribute_name,value)
-                mcs._clear_params_cache()
+                try:
+                    mcs.__param_inheritance(attribute_name,value)
+                except Exception:
+                    # ... and, as with add_parameter, a Parameter rejected
+                    # when its inherited attributes are merged must not
+                    # stay on the class
+                    if previous is missing:
+                        type.__delattr__(mcs, attribute_name)
+                    else:
+                        type.__setattr__(mcs, attribute_name, previous)
+                    raise
+                finally:
+                    mcs._clear_params_cache()
 
     def __param_inheritance(mcs, param_name, param):
         """
